@@ -99,7 +99,8 @@ Record istate := mkIS {        (* interrogationState *)
   i_stepout : nat;             (* len(stepOutStack) *)
   i_node : bool;               (* node reference is set *)
   i_vs : list gval;            (* values of the thread's scope where it last stopped *)
-  i_err : option gval          (* err: None = nil, Some d = runtime error carrying user data d *)
+  i_err : option gval;         (* err: None = nil, Some d = runtime error carrying user data d *)
+  i_cond : nat                 (* holders of is.cond.L (the mutex of the thread's condition) between calls *)
 }.
 
 Record thread := mkT {         (* one key of callStacks / callStackVsSnapshots / interrogationStates *)
@@ -117,6 +118,12 @@ Record dstate := mkD {
   d_refs : bool;                   (* mutexLog / threadpool / mutexeOwners set (first evaluation happened) *)
   d_lock : nat                     (* holders of ed.lock *)
 }.
+
+(* all debugger locks: ed.lock and the condition mutex of every interrogated thread *)
+Definition cond_held (t : thread) : nat :=
+  match t_is t with Some i => i_cond i | None => 0 end.
+Definition locks_total (s : dstate) : nat :=
+  d_lock s + list_sum (map cond_held (d_threads s)).
 
 Definition init (global : bool) : dstate := mkD [] false [] [] global false 0.
 
@@ -185,9 +192,12 @@ Definition Continue (s : dstate) (tid : N) (ct : conttype) : dstate * res :=
       | Some i =>
         if i_running i then (s1, ROk GNull)
         else
+          (* is.cond.L.Lock(); defer is.cond.L.Unlock(): waits while somebody holds it; the
+             deferred release runs on every path below (holders S n, then pred (S n) = n) *)
+          match i_cond i with S _ => (s1, RBlocked) | O =>
           let go (c : icmd) (so : nat) :=
             (set_threads s1 (upd_thread tid
-               (fun t' => set_is t' (Some (mkIS true c so (i_node i) (i_vs i) (i_err i)))) (d_threads s1)),
+               (fun t' => set_is t' (Some (mkIS true c so (i_node i) (i_vs i) (i_err i) (pred (S (i_cond i)))))) (d_threads s1)),
              ROk GNull) in
           match ct with
           | CtResume => go IResume (i_stepout i)
@@ -200,6 +210,7 @@ Definition Continue (s : dstate) (tid : N) (ct : conttype) : dstate * res :=
               | None => (s1, RPanic "Continue: stack[:len(stack)-1]")
               end
             else go IResume (i_stepout i)          (* nothing to step out of on the top level *)
+          end
           end
       | None => (s1, ROk GNull)
       end
@@ -282,7 +293,7 @@ Definition InjectValue (s : dstate) (o : oracle) (tid : N) : dstate * res :=
       | Some v =>
         if o_set o then
           (set_threads s1 (upd_thread tid
-             (fun t' => set_is t' (Some (mkIS (i_running i) (i_cmd i) (i_stepout i) (i_node i) (v :: i_vs i) (i_err i))))
+             (fun t' => set_is t' (Some (mkIS (i_running i) (i_cmd i) (i_stepout i) (i_node i) (v :: i_vs i) (i_err i) (i_cond i))))
              (d_threads s1)), ROk GNull)
         else (s1, RErr)
       | None => (s1, RErr)
@@ -405,8 +416,8 @@ Definition step (s : dstate) (e : event) : dstate :=
     set_bos (set_threads s (upd_thread tid (fun t =>
       if can_move t then
         match t_is t with
-        | Some i => set_is t (Some (mkIS false (i_cmd i) (i_stepout i) true vs (i_err i)))
-        | None => set_is t (Some (mkIS false IStop 0 true vs None))
+        | Some i => set_is t (Some (mkIS false (i_cmd i) (i_stepout i) true vs (i_err i) (i_cond i)))
+        | None => set_is t (Some (mkIS false IStop 0 true vs None 0))
         end
       else t) (d_threads s))) false
   | EvSuspendErr tid vs d =>
@@ -414,8 +425,8 @@ Definition step (s : dstate) (e : event) : dstate :=
       if can_move t then
         match t_is t with
         | Some i => set_is t (Some (mkIS false (i_cmd i) (i_stepout i) true vs
-                                      (match i_err i with Some x => Some x | None => Some d end)))
-        | None => set_is t (Some (mkIS false IStop 0 true vs (Some d)))
+                                      (match i_err i with Some x => Some x | None => Some d end) (i_cond i)))
+        | None => set_is t (Some (mkIS false IStop 0 true vs (Some d) 0))
         end
       else t) (d_threads s))
   | EvCall tid vs =>
@@ -424,8 +435,8 @@ Definition step (s : dstate) (e : event) : dstate :=
         mkT (t_id t) (map scope_json vs :: t_stack t)
             (match t_is t with
              | Some i => Some (match i_cmd i with
-                               | IStepIn => mkIS (i_running i) IStop (i_stepout i) (i_node i) (i_vs i) (i_err i)
-                               | IStepOver => mkIS (i_running i) IStepOut (List.length (t_stack t)) (i_node i) (i_vs i) (i_err i)
+                               | IStepIn => mkIS (i_running i) IStop (i_stepout i) (i_node i) (i_vs i) (i_err i) (i_cond i)
+                               | IStepOver => mkIS (i_running i) IStepOut (List.length (t_stack t)) (i_node i) (i_vs i) (i_err i) (i_cond i)
                                | _ => i
                                end)
              | None => None
@@ -445,7 +456,7 @@ Definition step (s : dstate) (e : event) : dstate :=
                              | IStepOver | IStepOut => if Nat.eqb (List.length rest) (i_stepout i) then IStop else i_cmd i
                              | c => c
                              end)
-                            (i_stepout i) (i_node i) (i_vs i) None)
+                            (i_stepout i) (i_node i) (i_vs i) None (i_cond i))
                | None => None
                end)
         end
